@@ -52,7 +52,7 @@ def default_profile(rng, tier="quick"):
 
 
 #: dimensions added on top of the classic program family (nested for / if / calls / arithmetic); each is drawn per case
-EXOTIC = ("const_conds", "launch_perm", "partial", "local_callee", "switches", "multiblock", "while_loops", "state_loops", "head_launch", "stale_links", "memory",
+EXOTIC = ("annotated_ifs", "const_conds", "launch_perm", "partial", "local_callee", "switches", "multiblock", "while_loops", "state_loops", "head_launch", "stale_links", "memory",
           "next_iv", "index_vals", "relaunch", "pure_loop")
 
 
@@ -228,6 +228,9 @@ class AccfgGen:
         r, p = self.r, self.p
         node = {"k": "if", "cond": r.choice(["%b0", "%b1", "%b2"] + (["%ctrue", "%cfalse"] if p.get("const_conds") else []))}
         node["then"] = self.stmts(r.randint(1, 2), list(scope), depth + 1, inloop)
+        if p.get("annotated_ifs") and r.random() < p["annotated_ifs"]:
+            self.tag += 1
+            node["eff_tag"] = self.tag  # the conditional itself carries accfg.effects = full (e.g. it contains inline assembly)
         if p.get("nest_passthrough") and depth + 1 < p["max_depth"] + 1 and r.random() < p["nest_passthrough"]:
             # the else path is itself conditional with an empty (pass-through) branch: the state after the if is the
             # state before it on one path, a new one on the others
@@ -528,7 +531,7 @@ def emit(ast, acc_names=None, vty="i32", decls=()) -> str:
             if s["else"]:
                 e(ind, "} else {")
                 stmts(ind + 1, s["else"])
-            e(ind, "}")
+            e(ind, "}" + (f' {{"accfg.effects" = #accfg.effects<full>, "vtag" = {s["eff_tag"]} : i64}}' if s.get("eff_tag") else ""))
         else:
             raise ValueError(k)
 
@@ -617,6 +620,8 @@ def shrink_body(body):
             # unwrapping is only name-safe when the body does not use iv-derived values; the
             # candidate is simply rejected by the parser otherwise
             yield body[:i] + s["body"] + body[i + 1 :]
+        if k == "if" and s.get("eff_tag"):
+            yield body[:i] + [{kk: vv for kk, vv in s.items() if kk != "eff_tag"}] + body[i + 1 :]
         if k in ("if", "sw"):
             yield body[:i] + s["then"] + body[i + 1 :]
             yield body[:i] + s["else"] + body[i + 1 :]
